@@ -1,8 +1,38 @@
-(* C12  A function cut out by a dispatch path.  (structural theorems are being added; see Lemmas/FunctionLemmas) *)
-From Coq Require Import List.
-From Tealer Require Import Syntax Parse Cfg Analysis Detect Group.
+(* C12  A function cut out by a dispatch path has exactly that path's executions.  Property theorems only. *)
+From Coq Require Import List String.
+From Tealer Require Import Syntax Parse Cfg StackAst Analysis Detect Group GraphWf GroupLemmas.
 Import ListNotations.
-(* the walk over the dispatch path rejects loops and invalid steps *)
-Theorem C12_walk_nil : forall t valid acc, walk_path t [] valid acc = Ok acc.
-Proof. reflexivity. Qed.
-Print Assumptions C12_walk_nil.
+Open Scope list_scope.
+
+(* with path [B0] the function IS the whole contract's function: same blocks, instruction text, line numbers,
+   edges, shared subroutines (record equality), no err blocks -- for structured programs *)
+Theorem C12_identity_path : forall p t, parse_teal p = Ok t -> struct_ok t ->
+  construct_function t [0] = Ok (whole_function t, []).
+Proof. exact construct_function_identity_struct_ok. Qed.
+(* the hypothesis is needed: a subroutine jumping into main code changes predecessor lists *)
+Theorem C12_identity_path_needs_structure : exists p t, parse_teal p = Ok t /\ construct_function t [0] <> Ok (whole_function t, []).
+Proof. exact construct_function_identity_refuted. Qed.
+
+(* a dispatch path is accepted iff it starts at B0, follows successor edges and repeats no block *)
+Theorem C12_valid_paths : forall t path r, walk_path t path [0] [] = Ok r ->
+  r = path /\ NoDup path /\ chain t [0] path /\ (forall b rest, path = b :: rest -> b = 0).
+Proof. exact dispatch_path_spec. Qed.
+
+(* for longer paths every departure from the path before its last block leads to an err block: a block
+   whose single instruction is the custom err instruction, without successors, rejecting in every analysis *)
+Theorem C12_departures_rejected : forall p t, parse_teal p = Ok t ->
+  forall path f errs, construct_function t path = Ok (f, errs) ->
+  forall pre a b post ab, path = pre ++ a :: b :: post -> tblock t a = Some ab ->
+  exists ab' e0, fblock f a = Some ab' /\ b_ins ab' = b_ins ab /\ b_next ab' = cut_next (b_next ab) b e0 /\
+    max_idx (t_blocks t) < e0 /\
+    (forall e, In e (b_next ab') ->
+       (e = b /\ In b (b_next ab)) \/
+       (max_idx (t_blocks t) < e /\ exists pos,
+          fblock f e = Some (mkBlock e [pos] [] [a]) /\ op_at (fn_prog f) pos = Some ICustomErr /\
+          forall T univ null union inter single,
+            block_constraint T univ null union inter single f (mkBlock e [pos] [] [a]) = Some null)).
+Proof. exact construct_function_cut_spec. Qed.
+
+Print Assumptions C12_identity_path.
+Print Assumptions C12_valid_paths.
+Print Assumptions C12_departures_rejected.
